@@ -121,10 +121,15 @@ func main() {
 	if *tier == "thorough" {
 		ncorp, nord = 600, 16
 	}
-	for ci := 0; ci < ncorp; ci++ {
+	for ci := 0; ci <= ncorp; ci++ {
 		nd := 1 + r.Intn(16)
 		if r.Intn(8) == 0 {
 			nd = 20 + r.Intn(15)
+		}
+		// the last corpus is a big one: more than 1000 matches, windows beyond the collector's pre-allocation hint
+		big := ci == ncorp
+		if big {
+			nd = 1350 + r.Intn(200)
 		}
 		c := sq.RandCorpus(r, nd, 1+r.Intn(4), true)
 		docs := map[int]sq.Doc{}
@@ -134,6 +139,9 @@ func main() {
 				d := &c.Segs[si].Docs[di]
 				for f, v := range d.N {
 					d.N[f] = []int{[]int{-1, 0, 1, 2}[r.Intn(4)]}
+					if big {
+						d.N[f] = []int{r.Intn(60) - 5}
+					}
 					_ = v
 				}
 				for f := range d.D {
@@ -166,6 +174,9 @@ func main() {
 			trank[t] = i + 1
 		}
 		queries := []*sq.Q{{T: "all"}, {T: "term", F: "f1", V: sq.Vocab[r.Intn(3)]}, {T: "match", F: "f1", Op: "or", Terms: []sq.Term{sq.Vocab[0], sq.Vocab[1], sq.Vocab[4]}}}
+		if big {
+			queries = queries[:1]
+		}
 		for _, q := range queries {
 			q.Fix()
 			mk := func() bluge.Query { rq, _ := q.Real(); return rq }
@@ -194,7 +205,7 @@ func main() {
 				}
 				return 0
 			}
-			for oi := 0; oi < nord; oi++ {
+			for oi := 0; oi < nord && (!big || oi < 2); oi++ {
 				var ks []keySpec
 				fields := []string{"n1", "k1", "t1", "_score"}
 				r.Shuffle(len(fields), func(i, j int) { fields[i], fields[j] = fields[j], fields[i] })
@@ -251,12 +262,19 @@ func main() {
 				for k := 0; k < 6; k++ {
 					n := []int{0, 1, 2, 3, 5, 9, 10, 11, 13, 40}[r.Intn(10)]
 					from := []int{0, 0, 1, 2, 5, 9, 10, 11, 30}[r.Intn(9)]
+					if big {
+						if k >= 3 {
+							break
+						}
+						n = []int{1001, 1500, 120, 300, 999}[r.Intn(5)]
+						from = []int{0, 1, 950, 1000, 1040}[r.Intn(5)]
+					}
 					res, err := run(rd, bluge.NewTopNSearch(n, mk()).SetFrom(from).SortByCustom(realOrder(ks)))
 					e := common("topn")
 					e["n"], e["from"], e["res"], e["err"] = n, from, ids(res), errS(err)
 					_ = enc.Encode(e)
 				}
-				if len(full) == 0 || ferr != nil {
+				if len(full) == 0 || ferr != nil || big {
 					continue
 				}
 				byID := map[int]match{}
